@@ -11,6 +11,7 @@
 #include <gmssl/aes.h>
 #include <gmssl/sm4_cbc_sm3_hmac.h>
 #include <gmssl/sm4_ctr_sm3_hmac.h>
+#include <gmssl/sm3.h>
 
 enum { SM4GCM, AESGCM, SM4CCM, CBCHMAC, CTRHMAC };
 static int scheme, stream_style;
@@ -106,8 +107,31 @@ static char verdict_str(const uint8_t *n, size_t nn, const uint8_t *a, size_t an
 	free(o); return v;
 }
 
+/* pad <key48> <iv> <aad> <plaintext blocks> <pattern> <expect>: CBC-encrypt the chosen blocks WITHOUT
+ * adding padding (the generator crafted the last block), MAC aad || ct, then run the streaming decryptor */
+static void do_pad(char **w) {
+	char *save = NULL, *t; SM4_KEY k; SM3_HMAC_CTX h; uint8_t ivc[16], *ct, mac[32], *stm, *o; size_t on; int r;
+	key = hex2buf(w[1]); iv = hex2buf(w[2]); aad = hex2buf(w[3]); pt = hex2buf(w[4]);
+	npat = 0; for (t = strtok_r(w[5], ",", &save); t && npat < 64; t = strtok_r(NULL, ",", &save)) pat[npat++] = (size_t)atol(t);
+	if (npat == 0) pat[npat++] = 16;
+	if (key.n != 48 || iv.n != 16 || pt.n % 16) { printf("ERR"); goto end; }
+	scheme = CBCHMAC; stream_style = 1; taglen = 32;
+	sm4_set_encrypt_key(&k, key.p); memcpy(ivc, iv.p, 16);
+	ct = malloc(pt.n ? pt.n : 1); sm4_cbc_encrypt_blocks(&k, ivc, pt.p, pt.n / 16, ct);
+	sm3_hmac_init(&h, key.p + 16, 32); if (aad.n) sm3_hmac_update(&h, aad.p, aad.n);
+	if (pt.n) sm3_hmac_update(&h, ct, pt.n);
+	sm3_hmac_finish(&h, mac);
+	stm = malloc(pt.n + 32); memcpy(stm, ct, pt.n); memcpy(stm + pt.n, mac, 32);
+	r = s_run(1, iv.p, iv.n, aad.p, aad.n, stm, pt.n + 32, 0, &o, &on);
+	puthex(ct, pt.n); putchar(' '); puthex(mac, 32); printf(" %c", r == 1 ? '1' : '0');
+	free(ct); free(stm); free(o);
+end:
+	free(key.p); free(iv.p); free(aad.p); free(pt.p);
+}
+
 static void handle(size_t nw, char **w) {
 	const char *field; uint8_t *ct = NULL, *tag = NULL, *st = NULL; size_t ctn = 0, stn = 0, i, nbits; char *save = NULL, *t;
+	if (nw == 7 && !strcmp(w[0], "pad")) { do_pad(w); return; }
 	if (nw != 10 || strcmp(w[0], "nb")) { printf("ERR bad-op"); return; }
 	scheme = !strcmp(w[1], "sm4gcm") ? SM4GCM : !strcmp(w[1], "aesgcm") ? AESGCM : !strcmp(w[1], "sm4ccm") ? SM4CCM : !strcmp(w[1], "cbchmac") ? CBCHMAC : CTRHMAC;
 	stream_style = !strcmp(w[2], "str"); field = w[3];
